@@ -160,6 +160,7 @@ type World struct {
 	disp        *listener.Dispatch
 	subs        []LSpec
 	gfs         []*gfState
+	gexSeq      int
 	posExtra    func(q *ecs.Query) map[string]interface{}
 	valSeq      int
 	lastDump    *ecs.EntityDump
